@@ -1433,13 +1433,22 @@ protected:
 
       if (chunkSize == 0)
       {
-        // Final chunk, look for final \r\n
-        auto finalCRLF = data.find("\r\n", pos);
-        if (finalCRLF == std::string::npos)
+        // Last chunk: the body ends after the trailer section, i.e. at the first EMPTY line
+        // (RFC 9112 §7.1.2) - not at the first CRLF, which would leave the remaining trailer
+        // bytes (at least a stray CRLF) in the buffer to be parsed as the next request.
+        while (true)
         {
-          return std::string::npos; // Need more data
+          auto lineEnd = data.find("\r\n", pos);
+          if (lineEnd == std::string::npos)
+          {
+            return std::string::npos; // Need more data
+          }
+          if (lineEnd == pos)
+          {
+            return lineEnd + 2;
+          }
+          pos = lineEnd + 2; // skip one trailer field line
         }
-        return finalCRLF + 2;
       }
 
       // Skip chunk data + trailing \r\n. chunkSize is peer-controlled: compare it with the
